@@ -1,6 +1,6 @@
 // Package earlyrand interposes on crypto/rand.Reader before the package under
 // test is initialised. It must only import packages that bip39 itself imports
-// transitively, and its import path must sort before "github.com/...": the Go
+// transitively (errors, strconv and strings are dependencies of math/big and fmt, which bip39 imports), and its import path must sort before "github.com/...": the Go
 // linker initialises independent packages in import-path order, so this init
 // runs first and `var cryptoRander = rand.Reader` in bip39 captures the
 // recording wrapper iff it is initialised from crypto/rand.Reader.
@@ -8,8 +8,11 @@ package earlyrand
 
 import (
 	"crypto/rand"
+	"errors"
 	"io"
 	"os"
+	"strconv"
+	"strings"
 	"sync"
 )
 
@@ -35,10 +38,34 @@ type Recorder struct {
 	r       io.Reader
 	log     []Event
 	Dropped int
+	mode    string // "" (record only) | short | fail | failpartial
+	at      int    // fail / failpartial: which Read of the process fails (1-based)
+	reads   int
 }
 
+// ErrInjected is the failure injected at the crypto/rand boundary.
+var ErrInjected = errors.New("verif: injected crypto/rand failure")
+
 func (w *Recorder) Read(p []byte) (int, error) {
-	n, err := w.r.Read(p)
+	w.mu.Lock()
+	w.reads++
+	k := w.reads
+	w.mu.Unlock()
+	var n int
+	var err error
+	switch {
+	case w.mode == "short" && len(p) > 5:
+		n, err = w.r.Read(p[:1+k%5]) // a legal short read
+	case w.mode == "fail" && k == w.at:
+		n, err = 0, ErrInjected
+	case w.mode == "failpartial" && k == w.at && len(p) > 3:
+		n, err = w.r.Read(p[:3])
+		if err == nil {
+			err = ErrInjected
+		}
+	default:
+		n, err = w.r.Read(p)
+	}
 	w.mu.Lock()
 	if len(w.log) < maxEvents {
 		keep := n
@@ -70,8 +97,16 @@ var Wrapper *Recorder
 
 func init() {
 	Orig = rand.Reader
-	if os.Getenv("VERIF_EARLYRAND") == "1" {
+	// VERIF_EARLYRAND: "1" records; "short" also fragments every read; "fail:N" and
+	// "failpartial:N" make the Nth Read of the process fail (with 0 or 3 bytes).
+	if v := os.Getenv("VERIF_EARLYRAND"); v != "" {
 		Wrapper = &Recorder{r: Orig}
+		if i := strings.IndexByte(v, ':'); i > 0 {
+			Wrapper.mode = v[:i]
+			Wrapper.at, _ = strconv.Atoi(v[i+1:])
+		} else if v != "1" {
+			Wrapper.mode = v
+		}
 		rand.Reader = Wrapper
 	}
 }
